@@ -4,6 +4,7 @@ import (
 	"context"
 	"errors"
 	"net"
+	"os"
 	"reflect"
 	"strings"
 	"time"
@@ -23,6 +24,26 @@ func setBufCap(c any, n int) {
 	*(*int)(unsafe.Pointer(f.UnsafeAddr())) = n
 }
 
+// the library's stock loggers write to os.Stderr as it is when the option is built: silence it for this
+// test process (the runtime's own crash output does not go through this variable)
+func init() {
+	if f, err := os.OpenFile(os.DevNull, os.O_WRONLY, 0); err == nil {
+		os.Stderr = f
+	}
+}
+
+// a caller-supplied logger that reads the messages it is shown (read-only use)
+type readingLogger4 struct{}
+
+func (readingLogger4) PrintMessage(prefix string, m *dhcpv4.DHCPv4) {
+	if m != nil {
+		_ = m.Summary()
+		_ = m.String()
+		_ = m.ParameterRequestList().String()
+	}
+}
+func (readingLogger4) Printf(format string, v ...interface{}) {}
+
 // ------------------------------------------------------------------ nclient4
 type api4 struct {
 	c    *nclient4.Client
@@ -34,7 +55,16 @@ const idOpt4 = 224
 func newAPI4(s *Sim, conn net.PacketConn) *api4 {
 	nclient4.VerifHook = s.hook
 	dest := &net.UDPAddr{IP: net.IPv4(10, 9, 8, 7), Port: 6767}
-	c, err := nclient4.NewWithConn(conn, mac, nclient4.WithTimeout(time.Duration(s.cfg.T)*unit), nclient4.WithRetry(s.cfg.Tries))
+	opts := []nclient4.ClientOpt{nclient4.WithTimeout(time.Duration(s.cfg.T) * unit), nclient4.WithRetry(s.cfg.Tries)}
+	switch s.cfg.Log {
+	case 1:
+		opts = append(opts, nclient4.WithSummaryLogger())
+	case 2:
+		opts = append(opts, nclient4.WithDebugLogger())
+	case 3:
+		opts = append(opts, nclient4.WithLogger(readingLogger4{}))
+	}
+	c, err := nclient4.NewWithConn(conn, mac, opts...)
 	if err != nil {
 		panic(err)
 	}
@@ -130,7 +160,16 @@ const idOpt6 = 65001
 func newAPI6(s *Sim, conn net.PacketConn) *api6 {
 	nclient6.VerifHook = s.hook
 	dest := &net.UDPAddr{IP: net.ParseIP("fe80::9"), Port: 5547}
-	c, err := nclient6.NewWithConn(conn, mac, nclient6.WithTimeout(time.Duration(s.cfg.T)*unit), nclient6.WithRetry(s.cfg.Tries))
+	opts := []nclient6.ClientOpt{nclient6.WithTimeout(time.Duration(s.cfg.T) * unit), nclient6.WithRetry(s.cfg.Tries)}
+	switch s.cfg.Log {
+	case 1:
+		opts = append(opts, nclient6.WithSummaryLogger())
+	case 2:
+		opts = append(opts, nclient6.WithDebugLogger())
+	case 3:
+		opts = append(opts, nclient6.WithLogDroppedPackets())
+	}
+	c, err := nclient6.NewWithConn(conn, mac, opts...)
 	if err != nil {
 		panic(err)
 	}
